@@ -42,7 +42,7 @@ C05 = [
      "Add(MatMul(a, b), c) -> Gemm without checking c: rank > 2 or a c that broadcasts the product up makes the Gemm invalid"),
     ("gemm_to_matmul_add_trans_or_rank", ["gemm_to_matmul_add_rule"], "gemm_to_matmul_add_rule ignores transA/transB and the rank of the reshaped operand"),
     ("reshape_matmul_reshape_regroups_matrix_dims", ["one_reshape_matmul_reshape_rule", "two_reshapes_matmul_reshape_rule"],
-     "Reshape(MatMul(Reshape(a, sa), Reshape(b, sb)), sc) -> MatMul(a, b) looks only at sc; input reshapes that regroup the matrix dims change the product"),
+     "Reshape(MatMul(Reshape(a, sa), Reshape(b, sb)), sc) -> MatMul(a, b) looks only at sc; input reshapes that regroup the matrix dims change the product, and so do input reshapes that regroup batch dims when the other operand has batch dims of its own (broadcasting aligns other dims: [3,1,3] vs [3,1,1,3] against [3,3,3,3])"),
     ("bn_into_gemm_beta_or_mixed_types", ["fuse_batchnorm_into_gemm_rule"],
      "fuse_batchnorm_into_gemm_rule ignores Gemm beta != 1, mixes float/double parameter types, and uses python 1e-5 instead of float32(1e-5) for the default epsilon in float64"),
     ("hardswish_opset_int_rank_or_float64", ["fuse_hardswish_rules"],
